@@ -246,6 +246,11 @@ def run(fx, chk, tier):
         chk.floor("R5", "rewinds between the child walks of MetaBox::read_box", len(res), 1)
         for ok, key, how, line in res:
             chk.require(ok, "R5", "MetaBox|" + key, how, "MetaBox::read_box: " + how, site_of(fm, line))
+    # ---------------- R6: layout rules of the metadata decoders (instances owned by C12)
+    from packs_common import compose
+    chk.rule("R6", "unknown / unrelated items and 64-bit size headers never change what the metadata decoders return: default arm only advances, decoders reposition to their end, advances and loop cursors are based on the position after the child's header (C12 R1/R2/R5 instances of moov/udta/meta/ilst/item/data)")
+    META = ("MoovBox", "UdtaBox", "MetaBox", "IlstBox", "IlstItemBox", "DataBox", "skip_box")
+    compose(fx, chk, tier, "R6", "C12", ["R1", "R2", "R5"], keyfilter=lambda o: any(x in o["key"] for x in META), floor=34, what="layout obligations of the metadata decoders")
     return chk.finish(
         "other",
         "Item-code, key and accessor tables are extracted from match arms and compared with each other and with the iTunes codes; the selection path of metadata(), the mdir constant pairing, "
